@@ -1,0 +1,9 @@
+//go:build !verif
+
+// Package verifhook provides named observation points for external verification
+// machinery. Without the 'verif' build tag every point is an empty function that
+// the compiler inlines away.
+package verifhook
+
+// Point marks a named point in the program. It does nothing in normal builds.
+func Point(name string, args ...any) {}
